@@ -65,6 +65,15 @@ func (c *FuncCtx) wrapTo(st *State, t *Term, typ types.Type, at ast.Node, what s
 func (c *FuncCtx) evalInt(st *State, e ast.Expr) *Term { return asInt(c.eval(st, e)) }
 
 func (c *FuncCtx) eval(st *State, e ast.Expr) Value {
+	v := c.eval0(st, e)
+	switch e.(type) {
+	case *ast.BinaryExpr, *ast.UnaryExpr, *ast.CallExpr, *ast.IndexExpr:
+		st.tmps[exprString(e)] = v
+	}
+	return v
+}
+
+func (c *FuncCtx) eval0(st *State, e ast.Expr) Value {
 	if v, ok := c.constOf(e); ok {
 		return v
 	}
@@ -270,7 +279,7 @@ func (c *FuncCtx) arith(st *State, op token.Token, a, b *Term, typ, rtyp types.T
 		}
 		return c.wrapTo(st, s, typ, at, "sub")
 	case token.MUL:
-		p := Mul(a, b)
+		p := c.product(st, a, b)
 		if unsigned {
 			return c.named(st, "mul", Mod(p, Const(M)), typ)
 		}
@@ -469,6 +478,7 @@ func (c *FuncCtx) assign(st *State, lhs ast.Expr, v Value) {
 			st.declare(obj, v)
 		} else {
 			st.vars[obj] = v
+			st.hist[obj] = append(st.hist[obj][:len(st.hist[obj]):len(st.hist[obj])], v)
 		}
 	case *ast.IndexExpr:
 		base := c.eval(st, n.X)
@@ -742,6 +752,9 @@ func (c *FuncCtx) merge(base *State, cond *Term, a, b *State, depth int) *State 
 	for obj := range base.vars {
 		va, vb := a.vars[obj], b.vars[obj]
 		m.vars[obj] = c.mergeVal(m, cond, va, vb)
+		if len(a.hist[obj]) != len(base.hist[obj]) || len(b.hist[obj]) != len(base.hist[obj]) {
+			m.hist[obj] = append(m.hist[obj][:len(m.hist[obj]):len(m.hist[obj])], m.vars[obj])
+		}
 	}
 	for _, hn := range sortedHeapNames(a.heaps) {
 		ha := a.heaps[hn]
